@@ -612,6 +612,38 @@ def gen_newreq_program(rng):
     return p, steps, {'bu': {bu}}
 
 
+def gen_abort_bu_program(rng):
+    """Directed family for C04/C19: tasks abort (panic guarded by a source value) in earlier sessions, which leaves tasks
+    with recorded read dependencies but no output; the cause is then removed and a bottom-up build is run over the changed
+    sources, in which such a task is both scheduled (through its read dependency) and freshly required by another task."""
+    p = Prog(); p.kind = 'panic'; p.exact_only = True
+    n = rng.randint(2, 5)
+    p.sources = list(range(n))
+    for t in range(n):
+        body = ('T', ('a',))
+        later = [u for u in range(t + 1, n)]
+        rng.shuffle(later)
+        for u in later[:rng.randint(0, 2)]:
+            body = ('Q', u, rng.choice([0, 2]), body)
+        p.tasks[t] = ('R', t, 0, ('I', ('l', 2), ('P',), body))
+    steps = []
+    bad = [t for t in range(n) if rng.random() < 0.7] or [n - 1]
+    for t in range(n):
+        steps.append(['E', str(t), '1' if t in bad else '0'])
+    order = list(range(n)); rng.shuffle(order)
+    for t in order[:rng.randint(1, n)]:
+        steps.append(['S', '1', 'q', str(t)])
+    changed = []
+    for t in range(n):
+        if t in bad or rng.random() < 0.3:
+            steps.append(['E', str(t), rng.choice(['0', '2'])]); changed.append(t)
+    rng.shuffle(changed)
+    bu = len(steps)
+    steps.append(['S', '1', 'b', str(len(changed))] + [str(r) for r in changed])
+    steps.append(['S', '1', 'q', str(rng.randrange(n))])
+    return p, steps, {'bu': {bu}}
+
+
 def gen_sibling_program(rng):
     """Directed family for C05: a top task requires several sibling chains (generators are reached TRANSITIVELY, at
     depth >= 2, so the hidden-dependency queries really walk the graph and leave work on their stack), reads the generated
